@@ -34,9 +34,10 @@ class _Z3Shim(types.ModuleType):
 
     def __init__(self):
         super().__init__("z3")
-        self.Solver = ghost.make_solver
+        # classes, so that isinstance(solver, z3.Optimize) in the real code works on the ghosts
+        self.Solver = ghost.GhostPlainSolver
         self.SolverFor = ghost.make_solver_for
-        self.Optimize = ghost.make_optimize
+        self.Optimize = ghost.GhostOptimize
         self.set_option = ghost.set_option
         self.PbEq = ghost.PbEq
         self.PbGe = ghost.PbGe
